@@ -455,6 +455,19 @@ impl<'m> MapSession<'m> {
                 out.insert("ok".into(), json!(1));
                 out.insert("v".into(), json!(uid));
             }
+            "probe_cmp" => {
+                // number of key comparisons (Eq + Ord) a lookup of each listed key makes
+                let mut res: Vec<Value> = vec![];
+                for k in &op.keys {
+                    let key = Key::probe(*k);
+                    crate::kv::cmp_count_reset();
+                    let found = with_guard!(g, map.get(&key, g).is_some(), r, r.get(&key).is_some());
+                    let c = crate::kv::cmp_count();
+                    let b = with_guard!(g, map.contains_key(&key, g), r, r.contains_key(&key));
+                    res.push(json!([k, c, (found && b) as u8]));
+                }
+                out.insert("cmps".into(), json!(res));
+            }
             "yield" => {}
             other => {
                 out.insert("unknown".into(), json!(other));
